@@ -177,7 +177,13 @@ def two_savers_law(crash_at: int, lost: int, a: bytes, b: bytes, buflimit: int) 
     return fail('crash_exposes_partial_destination', 'crash in %s: %r' % (crashed, content))
 
 
-def exit_law(fault_at: int, a: bytes, b: bytes, rm_part: bool, dest_exists: bool, text_mode: bool, buflimit: int) -> bool:
+class FalsyError(Exception):
+    """an exception whose instances are falsy (like an aggregate of errors with an empty list)"""
+    def __bool__(self):
+        return False
+
+
+def exit_law(fault_at: int, a: bytes, b: bytes, rm_part: bool, dest_exists: bool, text_mode: bool, buflimit: int, body_raises: bool) -> bool:
     """
     pre: len(a) <= 2 and len(b) <= 2
     post: _
@@ -195,18 +201,29 @@ def exit_law(fault_at: int, a: bytes, b: bytes, rm_part: bool, dest_exists: bool
         fs.names[DEST] = Inode(0o640, OLD)
     chunks = ['\xe9', 'ab'] if text_mode else [a, b]
     new = ''.join(chunks).encode('utf-8') if text_mode else a + b
+    body_raises = True if body_raises else False
     undo = fakeos.install(fu, fs)
     exc = None
     try:
         try:
             with fu.atomic_save(DEST, text_mode=text_mode, rm_part_on_exc=rm_part) as f:
-                for ch in chunks:
+                for i, ch in enumerate(chunks):
                     f.write(ch)
+                    if body_raises and i == 0:
+                        raise FalsyError('the body fails half way')
         except Exception as e:       # noqa - a reported failure is C05's business
             exc = e
     finally:
         undo()
         FakeFS.NOFAULT = ('stat', 'lexists')
+    if body_raises:
+        # the body failed after its first write: whatever else happens, the half-written data must not be published
+        ino = fs.names.get(DEST)
+        if exc is None:
+            return fail('body_exception_swallowed')
+        if (ino is None) != (not dest_exists) or (ino is not None and ino.kernel != OLD):
+            return fail('failed_body_published_partial_content', 'destination holds %r' % (None if ino is None else ino.kernel,))
+        return done(False, kind='raised')
     if exc is not None:
         return done(False, kind='raised')
     ino = fs.names.get(DEST)
